@@ -18,7 +18,7 @@ def run(tier, seed):
             cases.append(Case('candidates_m%d_t%d' % (ml, tor), 'crypto', 'zzC01_candidates', [ml, tor]))
     for n in (list(range(0, 201)) if thorough else [0, 1, 47, 48, 49, 96, 200]):
         cases.append(Case('raw_%d' % n, 'crypto', 'zzC01_raw', [n]))
-    for w in range(7):
+    for w in range(8):
         cases.append(Case('other_%d' % w, 'crypto', 'zzC01_other', [w]))
     for extra in (-48, -1, 0, 1, 2, 48, 152):
         cases.append(Case('appended_%d' % extra, 'crypto', 'zzC01_appended', [extra & ((1 << 64) - 1)]))
